@@ -51,12 +51,15 @@ type srvConn struct {
 	TLS      string    `json:"tls,omitempty"` // "", "ok", "fail"
 	HookFail bool      `json:"hook_fail,omitempty"`
 	Sync     bool      `json:"sync,omitempty"` // tiny server->client buffer
+	HookSlow   bool    `json:"hook_slow,omitempty"`   // the connect hook waits for "releasehook"
+	ParkAccept bool    `json:"park_accept,omitempty"` // hold Serve between Accept and wg.Add for this connection (hook)
 	Steps    []srvStep `json:"steps"`
 }
 
 type srvScenario struct {
 	Conns   []srvConn `json:"conns"`
 	NoProbe bool      `json:"no_probe,omitempty"`
+	AcceptErr bool    `json:"accept_err,omitempty"` // after the scripts: make Accept fail with a non-closed error
 }
 
 type srvObs struct {
@@ -85,6 +88,7 @@ type srvResult struct {
 	SdRunning   int             `json:"sd_running,omitempty"` // handlers in progress when Shutdown returned
 	SdMs        int             `json:"sd_ms,omitempty"`
 	Hang        bool            `json:"hang,omitempty"`
+	Spawned     int             `json:"spawned"` // connections for which handleConn ran (any event or server-side close by handleConn)
 }
 
 // ---------------------------------------------------------------- message construction
@@ -184,6 +188,9 @@ type srvConnCtl struct {
 	entered  chan struct{} // a gated handler is waiting
 	release  chan struct{} // closed by the script
 	relOnce  sync.Once
+	hookEntered chan struct{}
+	hookRelease chan struct{}
+	hookOnce    sync.Once
 	running  atomic.Int32
 	srvEnd   atomic.Value // <-chan struct{}: closed when the server closed its end of the socket
 }
@@ -305,6 +312,7 @@ func (h srvReqHandler) HandleRequest(ctx context.Context, req *kmip.RequestMessa
 type srvYield struct {
 	mu     sync.Mutex
 	armed  bool
+	point  string
 	parked chan struct{}
 	resume chan struct{}
 }
@@ -312,11 +320,8 @@ type srvYield struct {
 var srvY srvYield
 
 func srvYieldFn(point string) {
-	if point != "srv.send.loaded" {
-		return
-	}
 	srvY.mu.Lock()
-	if !srvY.armed {
+	if !srvY.armed || srvY.point != point {
 		srvY.mu.Unlock()
 		return
 	}
@@ -330,9 +335,10 @@ func srvYieldFn(point string) {
 	}
 }
 
-func srvArm() {
+func srvArm(point string) {
 	srvY.mu.Lock()
 	srvY.armed = true
+	srvY.point = point
 	srvY.parked = make(chan struct{})
 	srvY.resume = make(chan struct{})
 	srvY.mu.Unlock()
@@ -431,7 +437,8 @@ func srvRunScenario(sc srvScenario) (res srvResult) {
 	kmipserver.SetVerifYield(srvYieldFn)
 	w := &srvWorld{late: &srvLate{}}
 	for i := range sc.Conns {
-		w.conns = append(w.conns, &srvConnCtl{idx: i, entered: make(chan struct{}, 16), release: make(chan struct{})})
+		w.conns = append(w.conns, &srvConnCtl{idx: i, entered: make(chan struct{}, 16), release: make(chan struct{}),
+			hookEntered: make(chan struct{}, 1), hookRelease: make(chan struct{})})
 	}
 	exec := kmipserver.NewBatchExecutor()
 	exec.Route(kmip.OperationActivate, kmipserver.HandleFunc(w.activate))
@@ -445,6 +452,16 @@ func srvRunScenario(sc srvScenario) (res srvResult) {
 		cc := w.ctl(ctx)
 		if cc == nil {
 			return ctx, nil // probe connection
+		}
+		if sc.Conns[cc.idx].HookSlow {
+			select {
+			case cc.hookEntered <- struct{}{}:
+			default:
+			}
+			select {
+			case <-cc.hookRelease:
+			case <-time.After(6 * time.Second):
+			}
 		}
 		if hookFail[cc.idx] {
 			cc.event("hookfail", w.late)
@@ -518,6 +535,11 @@ func srvRunScenario(sc srvScenario) (res srvResult) {
 	}
 	for _, cc := range w.conns {
 		cc.relOnce.Do(func() { close(cc.release) })
+		cc.hookOnce.Do(func() { close(cc.hookRelease) })
+	}
+	if sc.AcceptErr {
+		ln.InjectAcceptError(errors.New("accept failed: too many open files"))
+		time.Sleep(2 * time.Millisecond)
 	}
 	// every script has closed its connection: wait until the server side noticed (it closes its
 	// end of the socket on every path), so that what follows does not race with connection start-up
@@ -535,7 +557,7 @@ func srvRunScenario(sc srvScenario) (res srvResult) {
 	sdMu.Lock()
 	shut := sdDone != nil
 	sdMu.Unlock()
-	if !shut && !sc.NoProbe {
+	if !shut && !sc.NoProbe && !sc.AcceptErr {
 		res.ProbeOK = srvProbe(ln)
 	} else {
 		res.ProbeOK = true
@@ -621,6 +643,9 @@ func srvRunConn(idx int, cs srvConn, ln *memnet.Listener, cc *srvConnCtl, shutdo
 		toClient = 8
 	}
 	name := fmt.Sprintf("c%d", idx)
+	if cs.ParkAccept {
+		srvArm("srv.serve.accepted")
+	}
 	raw, err := ln.DialWrapped(1<<20, toClient, func(s net.Conn) net.Conn {
 		var sc net.Conn = srvNamedConn{Conn: s, name: name}
 		if mc, ok := s.(*memnet.Conn); ok {
@@ -731,8 +756,18 @@ func srvRunConn(idx int, cs srvConn, ln *memnet.Listener, cc *srvConnCtl, shutdo
 			}
 		case "release":
 			cc.relOnce.Do(func() { close(cc.release) })
+		case "waithook":
+			select {
+			case <-cc.hookEntered:
+			case <-time.After(2 * time.Second):
+				out.Err = "waithook timeout"
+			}
+		case "releasehook":
+			cc.hookOnce.Do(func() { close(cc.hookRelease) })
+		case "grace":
+			time.Sleep(3300 * time.Millisecond)
 		case "park":
-			srvArm()
+			srvArm("srv.send.loaded")
 		case "waitpark":
 			srvY.mu.Lock()
 			p := srvY.parked
